@@ -36,7 +36,7 @@ import ast
 import os
 from fractions import Fraction
 
-NUM, INT, BOOL, UNIT, ELT, NONE, STR, NUMX = "num", "Z", "bool", "unit", "T", "none", "str", "numx"
+NUM, INT, BOOL, UNIT, ELT, NONE, STR, NUMX, NUMXN = "num", "Z", "bool", "unit", "T", "none", "str", "numx", "numxn"
 
 
 class Unsupported(Exception):
@@ -185,7 +185,7 @@ class Translator:
     def cty(self, t, elt=None):
         if t == NUM:
             return "num A"
-        if t == NUMX:
+        if t in (NUMX, NUMXN):
             return "option (num A)"
         if isinstance(t, tuple) and t[0] == "tuple":
             return "(" + " * ".join(self.cty(x, elt) for x in t[1]) + ")"
@@ -1058,6 +1058,10 @@ class Frame:
             if f in ("Z.modulo", "Z.div"):
                 self.guard(f"(Z.eqb {b.e} 0%Z)", "ZeroDivisionError")
             return V(f"({f} {a.e} {b.e})", INT)
+        if b.ty == NUMXN and a.ty in (INT, NUM) and isinstance(op, ast.Div):
+            return V(f"(xn_div {coerce(a, NUM).e} {b.e})", NUM)
+        if NUMXN in (a.ty, b.ty):
+            raise Unsupported(f"operator on a -inf sentinel: {ast.unparse(n)}")
         if NUMX in (a.ty, b.ty) and a.ty in (INT, NUM, NUMX) and b.ty in (INT, NUM, NUMX):
             if isinstance(op, ast.Add):
                 return V(f"(xadd {coerce(a, NUMX).e} {coerce(b, NUMX).e})", NUMX)
@@ -1102,6 +1106,15 @@ class Frame:
         if a.ty == BOOL and b.ty == BOOL and isinstance(op, (ast.Eq, ast.NotEq)):
             e = f"(Bool.eqb {a.e} {b.e})"
             return V(e if isinstance(op, ast.Eq) else f"(negb {e})", BOOL)
+        if NUMXN in (a.ty, b.ty) and a.ty in (INT, NUM, NUMXN) and b.ty in (INT, NUM, NUMXN) and not (a.ty == b.ty == NUMXN):
+            if not isinstance(op, (ast.Lt, ast.Gt, ast.LtE, ast.GtE)):
+                raise Unsupported("equality on a -inf sentinel")
+            swap = isinstance(op, (ast.Gt, ast.GtE))
+            x, y = (b, a) if swap else (a, b)  # x < y  or  x <= y
+            strict = isinstance(op, (ast.Lt, ast.Gt))
+            if x.ty == NUMXN:
+                return V(f"({'xn_lt_xn' if strict else 'xn_le_xn'} {x.e} {coerce(y, NUM).e})", BOOL)
+            return V(f"({'xn_lt_nx' if strict else 'xn_le_nx'} {coerce(x, NUM).e} {y.e})", BOOL)
         if NUMX in (a.ty, b.ty) and a.ty in (INT, NUM, NUMX) and b.ty in (INT, NUM, NUMX):
             swap = isinstance(op, (ast.Gt, ast.GtE))
             x, y = (b, a) if swap else (a, b)  # x < y  or  x <= y
@@ -1358,6 +1371,8 @@ class Frame:
             return V(f"(absA {coerce(args[0], NUM).e})", NUM)
         if name == "float" and len(args) == 1 and args[0].ty == STR and args[0].e == '"inf"':
             return V("(@None (num A))", NUMX)
+        if name == "float" and len(args) == 1 and args[0].ty == STR and args[0].e == '"-inf"':
+            return V("(@None (num A))", NUMXN)
         if name == "float" and len(args) == 1 and args[0].ty in (INT, NUM):
             return coerce(args[0], NUM)
         if name == "bool" and len(args) == 1 and args[0].ty == BOOL:
@@ -1530,6 +1545,8 @@ def join(a, b):
         return NUM
     if NUMX in (a, b) and a in (INT, NUM, NUMX) and b in (INT, NUM, NUMX):
         return NUMX
+    if NUMXN in (a, b) and a in (INT, NUM, NUMXN) and b in (INT, NUM, NUMXN):
+        return NUMXN
     if isinstance(a, tuple) and a[0] == "opt" and a[1] == b:
         return a
     if isinstance(b, tuple) and b[0] == "opt" and b[1] == a:
@@ -1544,8 +1561,8 @@ def coerce(v: V, ty):
         return v
     if v.ty == INT and ty == NUM:
         return V(f"(@ofZ A {v.e})", NUM)
-    if v.ty in (INT, NUM) and ty == NUMX:
-        return V(f"(Some {coerce(v, NUM).e})", NUMX)
+    if v.ty in (INT, NUM) and ty in (NUMX, NUMXN):
+        return V(f"(Some {coerce(v, NUM).e})", ty)
     if v.ty == BOOL and ty == INT:
         return V(f"(b2z {v.e})", INT)
     if v.ty == NONE and isinstance(ty, tuple) and ty[0] == "opt":
